@@ -163,6 +163,20 @@ theorem effective_le_measure (c : Code) (hc : c.Correct) (p : Params) :
       rw [he] at ih ⊢
       omega
 
+/-- with the counter stored at the start of every call, a later experiment of a process starts exactly like the first -/
+theorem initFrom_eq_init (c : Code) (hc : c.Correct) (p : Params) (prev : Nat) : initFrom c p prev = init c p := by
+  simp [initFrom, startNext, hc.reset, init]
+
+theorem runSeq_eq_map_run (c : Code) (hc : c.Correct) : ∀ (exps : List (Params × List Actor)) (prev : Nat),
+    runSeq c prev exps = exps.map (fun e => run c e.1 e.2)
+  | [], _ => rfl
+  | (p, sched) :: rest, prev => by
+    have h : runFrom c p prev sched = run c p sched := by simp [runFrom, run, initFrom_eq_init c hc]
+    simp only [runSeq, List.map_cons, h, runSeq_eq_map_run c hc rest]
+
+/-- the defective runner: the counter only has its static initialiser -/
+def Code.noReset : Code := { Code.reference with resetsNext := false }
+
 theorem sum_map_replicate_idle (n : Nat) : ∀ W, ((List.replicate W WState.idle).map (wt n)).sum = 2 * W
   | 0 => rfl
   | W + 1 => by
